@@ -31,6 +31,7 @@ import (
 	"strings"
 	"sync"
 	"time"
+	"unicode/utf8"
 
 	"github.com/risor-io/risor"
 	"github.com/risor-io/risor/ast"
@@ -470,6 +471,9 @@ func (c *c03Run) judgeSrc(stream, src string, res c03Result) {
 				eof = "1"
 			}
 			specs[i] = fmt.Sprintf("%d,%d,%s", max(t.A, 0), max(t.B, 0), eof)
+			if t.QL > 0 { // the returned error: the model counts against the line the error quotes
+				specs[i] += fmt.Sprintf(",%d", t.QL-1)
+			}
 		}
 		rep := strings.Split(e.O.Ask("C03", "toks", c03_runesCSV(src), strings.Join(specs, ";")), "\t")
 		if rep[0] != "ok" || len(rep) != len(toks)+1 {
@@ -522,11 +526,9 @@ func (c *c03Run) judgeSrc(stream, src string, res c03Result) {
 		e.R.Spec(key, "parser.Parse panicked: "+r.ParseMsg, "")
 	}
 	if strings.HasPrefix(r.ErrFmt, "panic:") {
-		finding := ""
-		if r.ErrTok != nil && r.ErrTok.P[0] != r.ErrTok.P[3] && modelErrF == "P" {
-			finding = "C03-friendly-multiline-span"
-		}
-		e.R.Spec(key, "formatting the returned error panicked ("+r.ErrFmt+"); error: "+r.ParseMsg, finding)
+		// no finding is attributed: since the repair of C03-friendly-multiline-span the model
+		// (C03_caret_nonneg) says that no span can make the rendering panic
+		e.R.Spec(key, "formatting the returned error panicked ("+r.ErrFmt+"); error: "+r.ParseMsg, "")
 	} else if r.ErrFmt == "ok" && modelErrF == "P" {
 		e.R.Mismatch(key, "FriendlyErrorMessage of the returned error returned", "P", "model predicts a negative Repeat count")
 	}
@@ -1416,6 +1418,7 @@ type c03Tok struct {
 	P          [6]int
 	GLT        string // "P" (panicked) or "s:e" when the text equals runes[s:e], or "?<text>"
 	F          string // "P" or "pad:n"
+	QL         int    // returned error only: runes of the quoted line (SourceCode()) + 1; 0 = not set
 	StartAfter bool   // start offset > end offset (never expected)
 }
 
@@ -1588,7 +1591,7 @@ func c03_tokInfo(l *lexer.Lexer, runes []rune, t token.Token) c03Tok {
 			}
 		}()
 		e := parser.NewParserError(parser.ErrorOpts{ErrType: "parse error", Message: "m",
-			StartPosition: t.StartPosition, EndPosition: t.EndPosition, SourceCode: "x"})
+			StartPosition: t.StartPosition, EndPosition: t.EndPosition, SourceCode: text})
 		ti.F = c03_friendlyCarets(e.FriendlyErrorMessage())
 	}()
 	return ti
@@ -1722,7 +1725,7 @@ func c03FormatErr(err error, resp *c03Resp) (res string) {
 	}()
 	if pe, ok := err.(parser.ParserError); ok && resp != nil {
 		s, e := pe.StartPosition(), pe.EndPosition()
-		resp.ErrTok = &c03Tok{A: s.Char, B: e.Char, P: c03_posArr(s, e)}
+		resp.ErrTok = &c03Tok{A: s.Char, B: e.Char, P: c03_posArr(s, e), QL: utf8.RuneCountInString(pe.SourceCode()) + 1}
 		resp.ParseMsg = c03_short(pe.Error(), 200)
 	}
 	_ = err.Error()
